@@ -75,6 +75,7 @@ type effEngine struct {
 	c        *Ctx
 	memo     map[string]*Effects
 	progress map[string]bool
+	envs     []*ssa.MakeClosure // closures whose bindings are referred to by env:<i>:<k> roots
 }
 
 func newEffEngine(c *Ctx) *effEngine {
@@ -129,7 +130,41 @@ func bindKey(bind map[int]constant.Value) string {
 func (e *effEngine) Of(fn *ssa.Function) *Effects { return e.With(fn, nil) }
 
 func (e *effEngine) With(fn *ssa.Function, bind map[int]constant.Value) *Effects {
+	return e.WithF(fn, bind, nil)
+}
+
+func fbindKey(fbind map[int][]funcVal_) string {
+	if len(fbind) == 0 {
+		return ""
+	}
+	var ks []int
+	for k := range fbind {
+		ks = append(ks, k)
+	}
+	sort.Ints(ks)
+	var sb strings.Builder
+	for _, k := range ks {
+		fmt.Fprintf(&sb, "%d=", k)
+		for _, f := range fbind[k] {
+			sb.WriteString(f.fn.String())
+			if f.mc != nil {
+				fmt.Fprintf(&sb, "@%s:%d", f.mc.Parent().String(), f.mc.Pos())
+			}
+			sb.WriteString(",")
+		}
+		sb.WriteString(";")
+	}
+	return sb.String()
+}
+
+// WithF: the effects of fn specialised to constant arguments (bind) and to the functions its
+// function-valued parameters (or parameters that are arrays or slices of functions) can denote at one
+// call site (fbind).
+func (e *effEngine) WithF(fn *ssa.Function, bind map[int]constant.Value, fbind map[int][]funcVal_) *Effects {
 	key := fname(fn) + "|" + bindKey(bind)
+	if fk := fbindKey(fbind); fk != "" {
+		key += "|f:" + fk
+	}
 	if r, ok := e.memo[key]; ok {
 		return r
 	}
@@ -139,7 +174,7 @@ func (e *effEngine) With(fn *ssa.Function, bind map[int]constant.Value) *Effects
 		return r
 	}
 	e.progress[key] = true
-	a := &effAnalysis{e: e, fn: fn, bind: bind, res: newEffects(fn, bindKey(bind)), orig: map[ssa.Value]Origin{}, consts: map[ssa.Value]constant.Value{}}
+	a := &effAnalysis{e: e, fn: fn, bind: bind, fbind: fbind, res: newEffects(fn, bindKey(bind)), orig: map[ssa.Value]Origin{}, consts: map[ssa.Value]constant.Value{}}
 	a.run()
 	delete(e.progress, key)
 	e.memo[key] = a.res
@@ -150,6 +185,8 @@ type effAnalysis struct {
 	e        *effEngine
 	fn       *ssa.Function
 	bind     map[int]constant.Value
+	fbind    map[int][]funcVal_
+	curMC    *ssa.MakeClosure // the closure whose body is being merged (its bindings are what fv<i> roots denote)
 	res      *Effects
 	orig     map[ssa.Value]Origin
 	consts   map[ssa.Value]constant.Value
@@ -759,6 +796,15 @@ func (a *effAnalysis) origin1(v ssa.Value) Origin {
 				return Origin{Root: fmt.Sprintf("p%d", i)}
 			}
 		}
+	case *ssa.FreeVar:
+		// the receiver a bound method value x.M carries (in ordinary closures free variables are cells)
+		if strings.HasSuffix(a.fn.Name(), "$bound") && a.fn.Synthetic != "" {
+			for i, fv := range a.fn.FreeVars {
+				if fv == x {
+					return Origin{Root: fmt.Sprintf("fv%d", i)}
+				}
+			}
+		}
 	case *ssa.Alloc, *ssa.MakeMap, *ssa.MakeSlice, *ssa.MakeClosure, *ssa.MakeChan:
 		return Origin{Root: "a"}
 	case *ssa.Global:
@@ -1024,19 +1070,21 @@ func (a *effAnalysis) call(common *ssa.CallCommon, pos token.Pos, callInstr *ssa
 			}
 			return true
 		}
-		if targets := funcTargetsLive(a.e.c, common.Value, live, 0); len(targets) > 0 {
+		if targets := a.targetsOf(common.Value, live); len(targets) > 0 {
 			all := true
 			for _, t := range targets {
-				if !a.isLib(t) {
+				if !a.isLib(t.fn) {
 					all = false
 				}
 			}
 			if all {
 				for _, t := range targets {
-					if _, ok := a.res.Calls[fname(t)]; !ok {
-						a.res.Calls[fname(t)] = pos
+					if _, ok := a.res.Calls[fname(t.fn)]; !ok {
+						a.res.Calls[fname(t.fn)] = pos
 					}
-					a.merge(a.e.With(t, nil), common.Args)
+					a.curMC = t.mc
+					a.merge(a.e.With(t.fn, nil), common.Args)
+					a.curMC = nil
 				}
 				return
 			}
@@ -1069,8 +1117,10 @@ func (a *effAnalysis) call(common *ssa.CallCommon, pos token.Pos, callInstr *ssa
 			}
 		}
 		a.closureBind(common, bind)
-		ce := a.e.With(callee, bind)
+		ce := a.e.WithF(callee, bind, a.funcArgs(callee, common.Args))
+		a.curMC, _ = common.Value.(*ssa.MakeClosure)
 		a.merge(ce, common.Args)
+		a.curMC = nil
 		return
 	}
 	// external
@@ -1122,6 +1172,94 @@ func (a *effAnalysis) call(common *ssa.CallCommon, pos token.Pos, callInstr *ssa
 	}
 }
 
+// isFuncish: a function type, or an array or slice of functions.
+func isFuncish(t types.Type) (fn, elems bool) {
+	switch u := t.Underlying().(type) {
+	case *types.Signature:
+		return true, false
+	case *types.Array:
+		_, ok := u.Elem().Underlying().(*types.Signature)
+		return false, ok
+	case *types.Slice:
+		_, ok := u.Elem().Underlying().(*types.Signature)
+		return false, ok
+	}
+	return false, false
+}
+
+// funcArgs: for the function-valued arguments of a call, what they can denote here.
+func (a *effAnalysis) funcArgs(callee *ssa.Function, args []ssa.Value) map[int][]funcVal_ {
+	var out map[int][]funcVal_
+	for i, arg := range args {
+		if i >= len(callee.Params) {
+			break
+		}
+		isF, isE := isFuncish(arg.Type())
+		var t []funcVal_
+		switch {
+		case isF:
+			t = a.targetsOf(arg, nil)
+		case isE:
+			t = a.elemsOf(arg, nil)
+		}
+		if len(t) > 0 {
+			if out == nil {
+				out = map[int][]funcVal_{}
+			}
+			out[i] = t
+		}
+	}
+	return out
+}
+
+// targetsOf: what a called value can denote, under this activation's own bindings first.
+func (a *effAnalysis) targetsOf(v ssa.Value, live func(phi *ssa.Phi, i int) bool) []funcVal_ {
+	switch x := v.(type) {
+	case *ssa.Parameter:
+		if t := a.fbind[paramIndex(a.fn, x)]; len(t) > 0 && x.Parent() == a.fn {
+			return t
+		}
+	case *ssa.Index:
+		if t := a.elemsOf(x.X, live); len(t) > 0 {
+			return t
+		}
+	case *ssa.UnOp:
+		if ia, ok := x.X.(*ssa.IndexAddr); ok && x.Op == token.MUL {
+			if t := a.elemsOf(ia.X, live); len(t) > 0 {
+				return t
+			}
+		}
+	}
+	return funcValsLive(a.e.c, v, live, 0)
+}
+
+func (a *effAnalysis) elemsOf(v ssa.Value, live func(phi *ssa.Phi, i int) bool) []funcVal_ {
+	switch x := v.(type) {
+	case *ssa.Parameter:
+		if t := a.fbind[paramIndex(a.fn, x)]; len(t) > 0 && x.Parent() == a.fn {
+			return t
+		}
+	case *ssa.Slice:
+		return a.elemsOf(x.X, live)
+	case *ssa.UnOp:
+		if al, ok := x.X.(*ssa.Alloc); ok && x.Op == token.MUL {
+			// a local copy of a parameter (range over an array copies it)
+			if sv := soleStoredValue(al); sv != nil {
+				if p, ok := sv.(*ssa.Parameter); ok {
+					return a.elemsOf(p, live)
+				}
+			}
+		}
+	case *ssa.Alloc:
+		if sv := soleStoredValue(x); sv != nil {
+			if p, ok := sv.(*ssa.Parameter); ok {
+				return a.elemsOf(p, live)
+			}
+		}
+	}
+	return funcElemVals(a.e.c, v, live, 0)
+}
+
 func pathIf(o Origin, suffix string) string {
 	if o.Root == "a" || o.Root == "o" {
 		return ""
@@ -1129,7 +1267,47 @@ func pathIf(o Origin, suffix string) string {
 	return o.Path + suffix
 }
 
+// bindingLoc: a location below the k-th binding of closure mc, as seen from this activation: through the
+// binding's own origin when this function made the closure, else left for the maker to translate.
+func (a *effAnalysis) bindingLoc(l Loc, mc *ssa.MakeClosure, k int) Loc {
+	if mc == nil || k >= len(mc.Bindings) {
+		return Loc{Root: "o", Flat: l.Flat, Pos: l.Pos, Via: l.Via}
+	}
+	if mc.Parent() == a.fn {
+		o := a.origin(mc.Bindings[k])
+		nl := Loc{Root: o.Root, Flat: l.Flat, Pos: l.Pos, Via: l.Via}
+		if o.Root != "a" && o.Root != "o" {
+			nl.Path = o.Path + l.Path
+		}
+		return nl
+	}
+	id := -1
+	for i, m := range a.e.envs {
+		if m == mc {
+			id = i
+		}
+	}
+	if id < 0 {
+		id = len(a.e.envs)
+		a.e.envs = append(a.e.envs, mc)
+	}
+	return Loc{Root: fmt.Sprintf("env:%d:%d", id, k), Path: l.Path, Flat: l.Flat, Pos: l.Pos, Via: l.Via}
+}
+
 func (a *effAnalysis) mapLoc(l Loc, args []ssa.Value) Loc {
+	if strings.HasPrefix(l.Root, "fv") {
+		var k int
+		fmt.Sscanf(l.Root, "fv%d", &k)
+		return a.bindingLoc(l, a.curMC, k)
+	}
+	if strings.HasPrefix(l.Root, "env:") {
+		var id, k int
+		fmt.Sscanf(l.Root, "env:%d:%d", &id, &k)
+		if id < len(a.e.envs) && a.e.envs[id].Parent() == a.fn {
+			return a.bindingLoc(l, a.e.envs[id], k)
+		}
+		return l
+	}
 	if strings.HasPrefix(l.Root, "p") {
 		var idx int
 		fmt.Sscanf(l.Root, "p%d", &idx)
